@@ -11,6 +11,8 @@ import (
 // Enabled reports whether this binary was built from a lockstep-rewritten tree.
 const Enabled = true
 
+func init() { kernel.ResetLockstep = func() { simsync.RT = nil } }
+
 // Install must be called at the start of every run (nil = real mutexes).
 func Install(rt *kernel.LockRuntime) {
 	if rt == nil {
